@@ -65,7 +65,18 @@ def statement_seq(draw, *, arity: int, mode: str, max_len: int = 12, min_len: in
     lit = literal(rdflib_safe)
     n_iris = draw(st.sampled_from([1, 2, 3, 4, 6, 9, 12, 14]))
     n_iris = min(n_iris, max(pool_max, 1))
-    iris = draw(st.lists(iri, min_size=n_iris, max_size=n_iris))
+    profile = draw(st.sampled_from(["mixed", "mixed", "prefix_churn", "name_churn"])) if pool_max >= 8 else "mixed"
+    if profile == "prefix_churn":
+        # many namespaces x very few local names: prefix slots are recycled while the names stay resident
+        pfx = draw(st.lists(st.sampled_from(PREFIXES), min_size=4, max_size=9, unique=True))
+        loc = draw(st.lists(st.sampled_from(LOCALS), min_size=1, max_size=2, unique=True))
+        iris = [["iri", p + l] for p in pfx for l in loc]
+    elif profile == "name_churn":
+        # few namespaces x many local names: name slots are recycled while the prefixes stay resident
+        pfx = draw(st.lists(st.sampled_from(PREFIXES), min_size=1, max_size=2, unique=True))
+        iris = [["iri", p + l] for p in pfx for l in LOCALS]
+    else:
+        iris = draw(st.lists(iri, min_size=n_iris, max_size=n_iris))
     bnodes = draw(st.lists(bnode, min_size=0, max_size=3))
     lits = draw(st.lists(lit, min_size=0, max_size=4))
     quoteds = draw(st.lists(quoted(quoted_depth), min_size=0, max_size=3)) if mode == "gen" else []
